@@ -27,6 +27,21 @@ Lemma g_outer_whitespace : forall T cfg l s r, tables_ok T -> cfg_strip cfg = tr
   all_ws T l -> all_ws T r -> gclean T cfg (l ++ s ++ r) = gclean T cfg s.
 Proof. intros. rewrite !clean_input_bridge. apply clean_ignores_outer_whitespace; assumption. Qed.
 
+Lemma g_strip_all_core : forall T cfg s, tables_ok T -> cfg_strip_all cfg = true ->
+  gclean T cfg s =
+  (let x := core s in
+   let x := if cfg_case_sensitive cfg then x else py_lower T x in
+   if cfg_strip cfg then py_strip T x else x).
+Proof. intros. rewrite clean_input_bridge. apply strip_all_depends_only_on_core; assumption. Qed.
+
+Lemma g_strip_all_spaces : forall T cfg a b, tables_ok T -> cfg_strip_all cfg = true ->
+  gclean T cfg (a ++ 32 :: b) = gclean T cfg (a ++ b).
+Proof. intros. rewrite !clean_input_bridge. apply strip_all_ignores_spaces_anywhere; assumption. Qed.
+
+Lemma g_repeated_space : forall T cfg a b, tables_ok T -> cfg_clean_spaces cfg = true ->
+  gclean T cfg (a ++ 32 :: 32 :: b) = gclean T cfg (a ++ 32 :: b).
+Proof. intros. rewrite !clean_input_bridge. apply clean_spaces_ignores_repeated_space; assumption. Qed.
+
 Lemma g_match_iff : forall T rm rf cfg a e s,
   cfg_validation_pattern cfg = None -> accept_any_mode cfg = false ->
   (norm T cfg s = norm T cfg e -> gcheck T rm rf cfg a e s = Ret (credit_of a)) /\
@@ -165,6 +180,12 @@ Lemma ex_runs_kept :
   gclean T_plain (cfg_flags true true false false) [97; 13; 13; 98] = [97; 32; 32; 98] /\
   gclean T_plain (cfg_flags true true false false) [97; 10; 13; 10; 13; 98] = [97; 32; 32; 32; 98].
 Proof. vm_compute. auto. Qed.
+
+(* strip_all off: a space inside matters; clean_spaces off: a repeated space matters *)
+Lemma ex_inner_space_matters :
+  gclean T_plain (cfg_flags true true false true) [97; 32; 98] <> gclean T_plain (cfg_flags true true false true) [97; 98]
+  /\ gclean T_plain (cfg_flags true true false false) [97; 32; 32; 98] <> gclean T_plain (cfg_flags true true false false) [97; 32; 98].
+Proof. split; vm_compute; discriminate. Qed.
 
 (* accept_nonempty with min_length 0: the empty submission is refused with an error, "x" is accepted *)
 Definition cfg_nonempty : config := mkConfig false true true false true false true 0 0 ExErr None ExErr [].
